@@ -992,11 +992,6 @@ func (t *fsmTxnCommitIndexTracker) hasModifiedListEntry(minIndex uint64, maxInde
 		return t.completeSince, true
 	}
 
-	normKey := key
-	if len(key) > 0 && key[len(key)-1] != '/' {
-		normKey += "/"
-	}
-
 	for index, modifications := range t.indexModifiedMap {
 		if index <= minIndex {
 			continue
@@ -1013,7 +1008,10 @@ func (t *fsmTxnCommitIndexTracker) hasModifiedListEntry(minIndex uint64, maxInde
 				return index, true
 			}
 
-			if strings.HasPrefix(modified, normKey) {
+			// Listing matches keys by the raw prefix (a listing of "foo"
+			// contains "foobar" as "bar"), so the same test decides whether a
+			// write may have changed it.
+			if strings.HasPrefix(modified, key) {
 				return index, true
 			}
 		}
